@@ -51,10 +51,10 @@ static inline BA ba_lit(const char *s, int len) { BA r = ba_empty(); MODEL_LIMIT
 static inline BA qs_as_ba(QS x) { BA r; r.n = x.n; for (int i = 0; i < TERM_L; i++) r.a[i] = x.a[i]; return r; }
 static inline QS ba_as_qs(BA x) { QS r; r.n = x.n; for (int i = 0; i < TERM_L; i++) r.a[i] = x.a[i]; return r; }
 
-/* an input about which nothing is known: the empty string or one chunk (for a QString: not a non-ASCII literal character,
-   which the UTF-8 model does not represent) */
+/* an input about which nothing is known: the empty value or one atom; for a QString one OPAQUE chunk (a literal character is a
+   special case of a chunk, and non-ASCII literal characters are not represented by the UTF-8 model) */
 static inline bool ba_opaque(BA x) { return ba_wf(x) && x.n <= 1; }
-static inline bool qs_opaque(QS x) { return ba_wf(qs_as_ba(x)) && x.n <= 1 && !(x.n == 1 && x.a[0] > 128 && x.a[0] <= 256); }
+static inline bool qs_opaque(QS x) { return ba_wf(qs_as_ba(x)) && x.n <= 1 && (x.n == 0 || x.a[0] > 256); }
 
 /* ---- free constructors */
 int __CPROVER_uninterpreted_t_id(BA x);                          /* hash-consing: the identity of a non-empty sequence */
